@@ -272,6 +272,13 @@ def h_proof(ctx: Any, nvars: int, nlabels: int, nsteps: int, layouts: bool = Fal
         return OrderedSet(orig(self))
 
     layout, earlier = (ctx.choose(3, 'layout'), ctx.choose(2, 'earlier theorem') == 1) if layouts else (0, False)
+    if layouts and ctx.choose(2, 'another database converted first') == 1:
+        # an earlier converter in the same process, for a database that declares the floating statements in the
+        # opposite order: a later conversion must not remember it
+        try:
+            _database(list(reversed(order)), gv, [], 'A')
+        except Exception:
+            ctx.count('warmup_raised')
     A.StructuredStatement.get_metavariables = patched  # type: ignore[method-assign]
     try:
         conv, db = _database(order, gv, labels, text, layout, earlier)
